@@ -5,9 +5,17 @@ bytes (the harness maps the printed keys through sha256 before comparing with th
 
   `new`                               empty database, empty manager                         → `ok`
   `add <fields>`                      build a transfer, `manager.add(t)`                    → `ok <#transfers> <#added events>`
+  `addc <fields>`                     `manager.add(t)` as its own task, the `TransferAddedEvent` listener suspends
+                                                                                            → `pending <#transfers> <#added>` | `dup <#transfers> <#added>`
+  `addr <u> <p> <d>`                  that listener resumes, `add()` returns                → `ok <#transfers>` | `no-pending`
+  `rmc <u> <p> <d> <now>`             `manager.remove(t)` as its own task up to the first suspended listener (state
+                                      listener of the abort transition / `TransferRemovedEvent` listener)
+                                                                                            → `aborting <#transfers> <#removed events> st=<state>` | `announcing <#transfers> <#removed>` | `not-found` | `busy`
+  `rms <u> <p> <d>`                   the suspended listener resumes, up to the next one / the return
+                                                                                            → `announcing <#> <#removed>` | `done <#> <#removed>` | `no-pending`
   `mut <fields>`                      overwrite the non-identity attributes of the transfer with this identity → `ok` | `not-found`
-  `rm <u> <p> <d>`                    `manager.remove(t)` of the transfer with this identity → `ok <#transfers>` | `not-found`
-  `store`                             `store_data()`                                        → `keys <hex>,<hex>,…`
+  `rm <u> <p> <d> <now>`              `manager.remove(t)` of the transfer with this identity → `ok <#transfers>` | `not-found`
+  `store`                             `store_data()`                                        → `keys <hex>,<hex>,… there=<ident>;… gone=<ident>;…` (ghost: reported added / removed)
   `legacy <u> <p> <d> <a> <o> <k> <s>` rewrite the stored entry of identity (u,p,d): drop `abort_reason` (a=1),
                                       add `_offset` (o=1), move it to the pre-fix key (k=1), state := UNSET (s=1)
                                                                                             → `ok` | `not-found`
@@ -112,84 +120,78 @@ def showTransfer (mid : Nat) (t : Transfer) : String :=
   s!"ct={showOpt toString t.completeTime} off={showBool t.hasOffset} " ++
   s!"ls={t.listeners.length}/{(t.listeners.filter (· = mid)).length} tk={t.tasks}"
 
-structure S where
-  mgr : Mgr
-  db : Db ByteArray
+abbrev S := Sys ByteArray
 
-def mgrId : Nat := 1
+def parseIdent (u p d : String) : Option Ident :=
+  match parseStr u, parseStr p, parseDir d with
+  | some u, some p, some d => some (u, p, d)
+  | _, _, _ => none
 
-def S.init : S := { mgr := Mgr.empty mgrId, db := [] }
+def parseOp (line : String) : Option Op :=
+  match (line.splitOn " ").filter (· ≠ "") with
+  | ["new"] => some .new
+  | "add" :: toks => (parseFields toks >>= parseTransfer).map .add
+  | "addc" :: toks => (parseFields toks >>= parseTransfer).map .addCall
+  | ["addr", u, p, d] => (parseIdent u p d).map .addRet
+  | "mut" :: toks => (parseFields toks >>= parseTransfer).map .edit
+  | ["rm", u, p, d, now] => do pure (.rm (← parseIdent u p d) (← now.toNat?))
+  | ["rmc", u, p, d, now] => do pure (.rmCall (← parseIdent u p d) (← now.toNat?))
+  | ["rms", u, p, d] => (parseIdent u p d).map .rmStep
+  | ["store"] => some .store
+  | ["legacy", u, p, d, a, o, k, st] => do
+    pure (.legacy (← parseIdent u p d) (← parseBool a) (← parseBool o) (← parseBool k) (← parseBool st))
+  | ["restart"] => some .restart
+  | ["sched"] => some (.sched [])
+  | ["sched", us] => ((us.splitOn ",").mapM parseStr).map .sched
+  | _ => none
 
-def setAt {α} : List α → Nat → α → List α
-  | [], _, _ => []
-  | _ :: r, 0, a => a :: r
-  | x :: r, n + 1, a => x :: setAt r n a
+def showIdents (l : List Ident) : String := ";".intercalate (l.map fun i => showIdent i.1 i.2.1 i.2.2)
+
+def stateOf (s : S) (id : Ident) : String :=
+  match s.mgr.transfers.find? (fun q => ident q = id) with
+  | some q => toString q.state.value
+  | none => "-"
+
+/-- one output line per op: the outcome and what the harness can observe on the real manager -/
+def render (op : Op) (s : S) (out : Out) : String :=
+  let n := s.mgr.transfers.length
+  match op, out with
+  | .new, _ => "ok"
+  | .add _, .ok => s!"ok {n} {s.mgr.addedEvents}"
+  | .add _, .dup => s!"ok {n} {s.mgr.addedEvents}"
+  | .addCall _, .dup => s!"dup {n} {s.mgr.addedEvents}"
+  | .addCall _, .pendingAdd => s!"pending {n} {s.mgr.addedEvents}"
+  | .addRet _, .ok => s!"ok {n}"
+  | .rm _ _, .done => s!"ok {n}"
+  | .rmCall id _, .aborting => s!"aborting {n} {s.removedEvents} st={stateOf s id}"
+  | .rmCall _ _, .announcing => s!"announcing {n} {s.removedEvents}"
+  | .rmStep _, .announcing => s!"announcing {n} {s.removedEvents}"
+  | .rmStep _, .done => s!"done {n} {s.removedEvents}"
+  | .store, _ =>
+    "keys " ++ ",".intercalate (s.db.map fun e => hexOfBytes e.1) ++
+      " there=" ++ showIdents s.there ++ " gone=" ++ showIdents s.gone
+  | .restart, .loaded =>
+    s!"loaded {n} {s.mgr.addedEvents} " ++ "|".intercalate (s.mgr.transfers.map (showTransfer s.mgr.id))
+  | .restart, _ => "error no-state-class"
+  | .sched offl, _ =>
+    let r := eligible (fun u => offl.contains u) s.mgr.transfers
+    "dl=" ++ "|".intercalate (r.1.map fun t => showIdent t.user t.path t.dir) ++
+      " ul=" ++ "|".intercalate (r.2.map fun t => showStr t.user)
+  | _, .ok => "ok"
+  | _, .notFound => "not-found"
+  | _, .busy => "busy"
+  | _, .noPending => "no-pending"
+  | _, _ => "bad-outcome"
 
 def handle (s : S) (line : String) : S × String :=
-  match (line.splitOn " ").filter (· ≠ "") with
-  | ["new"] => (S.init, "ok")
-  | "add" :: toks =>
-    match parseFields toks >>= parseTransfer with
-    | some t =>
-      let m := s.mgr.add t
-      ({ s with mgr := m }, s!"ok {m.transfers.length} {m.addedEvents}")
-    | none => (s, "bad-op")
-  | "mut" :: toks =>
-    match parseFields toks >>= parseTransfer with
-    | some t =>
-      match s.mgr.transfers.findIdx? (fun q => ident q = ident t) with
-      | some i =>
-        -- identity and listeners stay; every other attribute is overwritten
-        let ls := (s.mgr.transfers[i]?.map (·.listeners)).getD []
-        ({ s with mgr := { s.mgr with transfers := setAt s.mgr.transfers i { t with listeners := ls } } }, "ok")
-      | none => (s, "not-found")
-    | none => (s, "bad-op")
-  | ["rm", u, p, d] =>
-    match parseStr u, parseStr p, parseDir d with
-    | some u, some p, some d =>
-      match s.mgr.transfers.findIdx? (fun q => ident q = (u, p, d)) with
-      | some i =>
-        let m := { s.mgr with transfers := s.mgr.transfers.eraseIdx i, cycleRequested := true }
-        ({ s with mgr := m }, s!"ok {m.transfers.length}")
-      | none => (s, "not-found")
-    | _, _, _ => (s, "bad-op")
-  | ["store"] =>
-    let db := write id s.db s.mgr.transfers
-    ({ s with db := db }, "keys " ++ ",".intercalate (db.map fun e => hexOfBytes e.1))
-  | ["legacy", u, p, d, a, o, k, st] =>
-    match parseStr u, parseStr p, parseDir d, parseBool a, parseBool o, parseBool k, parseBool st with
-    | some u, some p, some d, some a, some o, some k, some st =>
-      match s.db.find? (fun e => e.2.user = u ∧ e.2.path = p ∧ e.2.dir = d) with
-      | some e =>
-        let r := { e.2 with abortReason := if a then none else e.2.abortReason,
-                            hasOffset := e.2.hasOffset || o,
-                            state := if st then -1 else e.2.state }
-        let db : Db ByteArray :=
-          if k then Db.put (s.db.filter (fun x => x.1 ≠ e.1)) (oldKeyBytes u p d) r else Db.put s.db e.1 r
-        ({ s with db := db }, "ok")
-      | none => (s, "not-found")
-    | _, _, _, _, _, _, _ => (s, "bad-op")
-  | ["restart"] =>
-    match (Mgr.empty mgrId).load s.db with
-    | some m =>
-      ({ s with mgr := m },
-       s!"loaded {m.transfers.length} {m.addedEvents} " ++ "|".intercalate (m.transfers.map (showTransfer m.id)))
-    | none => ({ s with mgr := Mgr.empty mgrId }, "error no-state-class")
-  | "sched" :: rest =>
-    let offl : Option (List Str) :=
-      match rest with
-      | [] => some []
-      | [us] => (us.splitOn ",").mapM parseStr
-      | _ => none
-    match offl with
-    | some offl =>
-      let r := eligible (fun u => offl.contains u) s.mgr.transfers
-      (s, "dl=" ++ "|".intercalate (r.1.map fun t => showIdent t.user t.path t.dir) ++
-          " ul=" ++ "|".intercalate (r.2.map fun t => showStr t.user))
-    | none => (s, "bad-op")
-  | ["dump"] =>
+  if line = "dump" then
     (s, s!"dump {s.mgr.transfers.length} " ++ "|".intercalate (s.mgr.transfers.map (showTransfer s.mgr.id)))
-  | _ => (s, "bad-op")
+  else
+    match parseOp line with
+    | none => (s, "bad-op")
+    | some op =>
+      let r := step id s op
+      (r.1, render op r.1 r.2)
 
 partial def loop (h : IO.FS.Stream) (s : S) : IO Unit := do
   let line ← h.getLine
@@ -201,4 +203,4 @@ partial def loop (h : IO.FS.Stream) (s : S) : IO Unit := do
 end C17Driver
 
 def main : IO Unit := do
-  C17Driver.loop (← IO.getStdin) C17Driver.S.init
+  C17Driver.loop (← IO.getStdin) Sys.init
